@@ -53,6 +53,7 @@ pub fn gen(seed: u64, count: usize, thorough: bool, tie_heavy: bool) -> String {
         let mut adds = 0u64;
         let mut val = 0u64;
         let mut vals: Vec<u64> = Vec::new();
+        let mut far_vals: Vec<u64> = Vec::new();
         // phase mix: build-up, churn, drain
         for i in 0..len {
             let phase = (3 * i) / len;
@@ -62,7 +63,19 @@ pub fn gen(seed: u64, count: usize, thorough: bool, tie_heavy: bool) -> String {
                 _ => (2, 1, 6),
             };
             let x = r.below(w.0 + w.1 + w.2);
-            if x < w.0 {
+            if r.chance(1, 40) {
+                // an outlier more than 584 years ahead; sometimes cancelled right away, else before the drain
+                val += 1;
+                let off: i128 = (1i128 << 64) * r.range(1, 40) as i128 + r.below(1u64 << 40) as i128 * t as i128 + r.below(3) as i128;
+                writeln!(out, "add {off} {val}").unwrap();
+                vals.push(val);
+                adds += 1;
+                if r.chance(1, 2) {
+                    writeln!(out, "cancel {val}").unwrap();
+                } else {
+                    far_vals.push(val);
+                }
+            } else if x < w.0 {
                 val += 1;
                 writeln!(out, "add {} {}", delta(&mut r, n, t, tie_heavy), val).unwrap();
                 vals.push(val);
@@ -80,6 +93,11 @@ pub fn gen(seed: u64, count: usize, thorough: bool, tie_heavy: bool) -> String {
                 writeln!(out, "fetch").unwrap();
             }
         }
+        // far-future outliers (beyond 2^64 ns; bucket slot numbers exceed 64 bits for small widths): only ever added
+        // and cancelled — all still pending ones are cancelled before the drain
+        for v in far_vals.drain(..) {
+            writeln!(out, "cancel {v}").unwrap();
+        }
         // drain completely in most cases
         if r.chance(3, 4) {
             for _ in 0..(adds + 1) {
@@ -91,6 +109,10 @@ pub fn gen(seed: u64, count: usize, thorough: bool, tie_heavy: bool) -> String {
     out
 }
 
+/// offsets at or beyond this many nanoseconds are "far-future outliers": never fetched by generated scripts
+/// (the real scan loop is O(gap / t)), only added and cancelled
+const FAR: i128 = 1 << 62;
+
 pub fn exec(input: &str) -> String {
     let mut out = String::new();
     for (header, body) in cases(input) {
@@ -100,6 +122,9 @@ pub fn exec(input: &str) -> String {
         let mut q: CQueue<u64> = CQueue::new(n, Duration::from_nanos(t));
         let mut handles: Vec<(u64, Option<EventHandle<u64>>)> = Vec::new();
         let mut cur: i128 = 0;
+        // far-future outliers still in the queue (as far as the harness can tell): a fetch that could only return
+        // one of them would scan ~2^64 buckets, so the case is stopped instead
+        let mut far: Vec<u64> = Vec::new();
         for line in body {
             let tok: Vec<&str> = line.split_whitespace().collect();
             let mut res = String::new();
@@ -107,10 +132,14 @@ pub fn exec(input: &str) -> String {
                 ["add", d, v] => {
                     let d: i128 = d.parse().unwrap_or(0);
                     let v: u64 = v.parse().unwrap_or(0);
-                    let abs = (cur + d).max(0) as u64;
-                    match guarded(|| q.add(Duration::from_nanos(abs), v)) {
+                    let abs = (cur + d).max(0) as u128;
+                    let dur = Duration::new((abs / 1_000_000_000) as u64, (abs % 1_000_000_000) as u32);
+                    match guarded(|| q.add(dur, v)) {
                         Ok(h) => {
                             handles.push((v, Some(h)));
+                            if d >= FAR {
+                                far.push(v);
+                            }
                             write!(res, "add {abs} {v} -> ok").unwrap();
                         }
                         Err(_) => write!(res, "add {abs} {v} -> panic").unwrap(),
@@ -123,12 +152,25 @@ pub fn exec(input: &str) -> String {
                         None => continue, // the add was rejected or is not part of this script
                     };
                     match handles.get_mut(k).and_then(|h| h.1.take()) {
-                        Some(h) => match guarded(|| q.cancel(h)) {
-                            Ok(()) => write!(res, "cancel {k} -> ok").unwrap(),
-                            Err(_) => write!(res, "cancel {k} -> panic").unwrap(),
-                        },
+                        Some(h) => {
+                            let before = q.len();
+                            match guarded(|| q.cancel(h)) {
+                                Ok(()) => {
+                                    if q.len() < before {
+                                        far.retain(|x| *x != v);
+                                    }
+                                    write!(res, "cancel {k} -> ok").unwrap()
+                                }
+                                Err(_) => write!(res, "cancel {k} -> panic").unwrap(),
+                            }
+                        }
                         None => continue, // never issued or already consumed: no call possible
                     }
+                }
+                ["peek"] | ["fetch"] if !far.is_empty() && q.len() <= far.len() => {
+                    // only outliers are left (a cancel of one did not take effect, or the script never cancelled it)
+                    writeln!(out, "{} -> skipped-outlier-pending len={} time={} empty={}", tok[0], q.len(), q.time().as_nanos(), q.is_empty() as u8).unwrap();
+                    break;
                 }
                 ["peek"] => match guarded(|| q.next_time()) {
                     Ok(Some(t)) => write!(res, "peek -> {}", t.as_nanos()).unwrap(),
